@@ -43,7 +43,7 @@ pub fn make(transport: &str, kind: &str, offered: u64, legacy: bool, max_queue: 
     let (cfg, max_queue) = crate::core::with_world(|w| match w.adv.as_mut() {
         None => (cfg.clone(), max_queue),
         // (p = 0: the adversary layer is only observing - the "plain" mode of the adv family)
-        Some(a) if a.p == 0.0 => (cfg.clone(), max_queue),
+        Some(a) if a.p == 0.0 || a.warmup > 0 => (cfg.clone(), max_queue),
         Some(a) => {
             use rand::Rng;
             let mut c = cfg.clone();
